@@ -17,7 +17,7 @@ PYTHONPATH=$WT timeout 300 /venv/bin/python seed_out/demo$K.py > $WT/demo_with.l
 # run all checks on the changed tree, in parallel
 mkdir -p $WT/chk
 ls /verif/sa/checks | sed -n 's/^\(c[0-9][0-9]\)\.py$/\1/p' | tr a-z A-Z | xargs -P 10 -I{} sh -c "cd /verif && timeout 900 /venv/bin/python sa/run.py {} --repo $WT --scratch > $WT/chk/{}.log 2>&1; echo \$? > $WT/chk/{}.rc"
-git stash -q 2>/dev/null || git checkout -q -- .
+git checkout -q -- .
 PYTHONPATH=$WT timeout 300 /venv/bin/python seed_out/demo$K.py > $WT/demo_without.log 2>&1; demo_without=$?
 mkdir -p $OUT
 cp $SRC/patch$K.diff $OUT/patch.diff; cp $SRC/demo$K.py $OUT/demo.py; cp $SRC/notes$K.md $OUT/notes.md 2>/dev/null
